@@ -24,8 +24,8 @@ backing array of `PathItem.Parameters` of path item i — `decodedCap n` of them
                                     deep-copied first (`value[propName] = deepcopy.Copy(dflt)`; before commit
                                     afcfd61 it was shared and nested defaults were written INTO the document:
                                     F-C15-1, now a regression theorem) — the document's default is only read
-  openapi3gen.NewSchemaRefForValue  cacheFill of the type-info cache under `typeInfosMutex`: the first published
-                                    descriptor wins (before commit 9118e72 every first user stored its own and
+  openapi3gen.NewSchemaRefForValue  fillUse of the type-info cache under `typeInfosMutex`: the first published
+                                    descriptor wins and is the one every caller uses (before commit 9118e72 every first user stored its own and
                                     cycle detection by pointer could see two: F-C15-2, now a regression theorem)
 -/
 import KinModel.Conc
@@ -83,8 +83,9 @@ def opActs (_tid : Nat) (o : OpM) : List Act :=
   -- call's own regex compiler; `compilePattern` never fills the cache (CompareAndSwap(pattern, nil, cp))
   (if validates o.kind then o.patterns.map (fun p => Act.cacheUse (patCell p) (1 + o.dialect)) else []) ++
   (if validates o.kind && o.arrays then [Act.lazyInit uniqCell 7] else []) ++
-  -- getTypeInfo: the first published descriptor wins — a fill, for recursive types too
-  (if o.kind = .gen then [Act.cacheFill (typeCell o.genType) (o.genType + 1)] else []) ++
+  -- getTypeInfo: the first published descriptor wins, and the caller goes on with the PUBLISHED one (cycle detection
+  -- compares descriptor pointers): a load-or-publish whose result is used; the descriptor is a function of the type
+  (if o.kind = .gen then [Act.fillUse (typeCell o.genType) (o.genType + 1)] else []) ++
   -- an object-valued default is deep-copied into the request value; error texts print the schema: plain reads
   (if validates o.kind && o.sharedDefault then [Act.read dfltCell] else []) ++
   -- `SchemaStringFormats[format]`, `bodyDecoders[mediaType]`: plain reads of maps that only registration functions write
@@ -99,7 +100,8 @@ structure CaseM where
 
 def caseCfg (c : CaseM) : Cfg :=
   { cache := c.ops.map (fun o => typeCell o.genType),   -- the pattern cells are NOT caches: nothing fills them
-    lazy := [uniqCell] }
+    lazy := [uniqCell],
+    det := c.ops.map (fun o => (typeCell o.genType, o.genType + 1)) }   -- one descriptor per Go type
 
 /-- initial state: document and routers built, the uniqueness checker initialised by its declaration,
     caches cold, the shared default object without the nested key -/
